@@ -119,7 +119,12 @@ restart:
     if(top > r_bottom || left > r_right || right < r->left)
       continue;
 
-    if(tickit_rect_contains(r, rect))
+    // After a stretch-and-restart the rectangle being added is no longer the
+    // caller's original; always work on the current bounds
+    TickitRect cur;
+    tickit_rect_init_bounded(&cur, top, left, bottom, right);
+
+    if(tickit_rect_contains(r, &cur))
       // Already entirely covered, just return
       return;
 
@@ -150,7 +155,7 @@ restart:
     // it now must be composed of, delete r, then recurse on those to-be-added
     // rects instead.
     TickitRect to_add[3];
-    int n = tickit_rect_add(to_add, r, rect); // TODO: top/left/bottom/right ?
+    int n = tickit_rect_add(to_add, r, &cur);
 
     delete_rect(trs, i);
 
